@@ -18,6 +18,7 @@ import (
 	"strconv"
 	"strings"
 	"sync"
+	"sync/atomic"
 	"time"
 
 	"verif/harness/ndj"
@@ -57,7 +58,7 @@ type Ctl struct {
 	// stress: latency of the simulated bitcoind / elementsd / Electrum answers, so that code which
 	// releases a lock around an RPC exposes its window: usually up to LatUs microseconds, in LongPct
 	// percent of the calls up to LongMs milliseconds
-	LatUs, LongPct, LongMs int
+	LatUs, LongPct, LongMs atomic.Int32
 }
 
 func NewCtl(t int, out *ndj.Writer, det bool) *Ctl {
@@ -154,10 +155,10 @@ func (c *Ctl) whoami() string {
 // Gate is called by every simulated service BEFORE it answers.
 func (c *Ctl) Gate(name string) {
 	if !c.Det {
-		if c.LatUs > 0 && (strings.HasPrefix(name, "rpc.") || strings.HasPrefix(name, "el.")) {
-			d := time.Duration(rand.IntN(c.LatUs)+1) * time.Microsecond
-			if c.LongPct > 0 && rand.IntN(100) < c.LongPct {
-				d = time.Duration(rand.IntN(c.LongMs)+1) * time.Millisecond
+		if lat := int(c.LatUs.Load()); lat > 0 && (strings.HasPrefix(name, "rpc.") || strings.HasPrefix(name, "el.")) {
+			d := time.Duration(rand.IntN(lat)+1) * time.Microsecond
+			if pct := int(c.LongPct.Load()); pct > 0 && rand.IntN(100) < pct {
+				d = time.Duration(rand.IntN(int(c.LongMs.Load()))+1) * time.Millisecond
 			}
 			time.Sleep(d)
 			return
